@@ -233,8 +233,16 @@ def render_value(ctx, v, kind='display', ty=''):
         if fl:
             f = Formatter()
             ref = v0 if isinstance(v0, Ref) else Ref(Cell(v))
-            while isinstance(ctx.project(ref.cell.v, ref.path), Ref):
-                ref = ctx.project(ref.cell.v, ref.path)
+            for _ in range(8):
+                t = ctx.project(ref.cell.v, ref.path)
+                if isinstance(t, Ref):
+                    ref = t
+                elif isinstance(t, BoxV):
+                    ref = Ref(t.cell)
+                elif hasattr(t, 'cell') and type(t).__name__ == 'RcV':
+                    ref = Ref(t.cell)
+                else:
+                    break
             ctx.call_fn(fl[0], [ref, Ref(Cell(f))])
             return f.out
     if hasattr(v, 'display'):
